@@ -171,6 +171,8 @@ func (r *runner) run(steps []step, skip func(s step) bool, stopAfter int) (out o
 			opErr = store(s.A.T).Delete(ctx, r.m.Key(s.A.K))
 		case "emptyset":
 			opErr = drv.Write(ctx, store(s.A.T), "", []byte("x"), int(r.m.Seed)+i)
+		case "emptydel":
+			opErr = store(s.A.T).Delete(ctx, "")
 		case "begin":
 			var tx fs_db.Tx
 			if s.A.L == "RC" && (int(r.m.Seed)+i)%2 == 0 {
